@@ -1,5 +1,6 @@
 import Ufo2ftModel.Drv.C01
 import Ufo2ftModel.Spec.C13
+import Ufo2ftModel.Spec.Good
 namespace Ufo2ft.Drv.C13
 open Lean Ufo2ft Ufo2ft.Drv Ufo2ft.C13
 
@@ -18,7 +19,8 @@ def filter (req : Json) : R Reply := do
     | some _ => return { model, holds := false }
     | none =>
       let after ← asGlyphSet (← field obs "glyphs")
-      return { model, holds := holdsSkip skip gs after, info := strsJ (skipWrong skip gs after) }
+      return { model, holds := holdsSkip skip gs after, info := strsJ (skipWrong skip gs after),
+               hyp := Json.bool (goodCert gs (depthCert gs)) }
 
 /-- op "compile": in = {tol, glyphs, skip, orderFull, advFull:[[name,adv]], cmapFull:[[u,name]]};
     obs = {err} | {order, glyphs:[[name, ops, adv]], cmap:[[u,name]]} -/
